@@ -26,7 +26,7 @@ T(n, al, deps, calls) == [n |-> n, al |-> al, deps |-> deps, calls |-> calls]
 FileTasks == [
   R |-> << T("r1", {}, <<>>, <<>>), T("r2", {}, <<"r1">>, <<>>) >>,
   A |-> << T("t1", {"al"}, <<>>, <<>>), T("t2", {}, <<"t1">>, <<"t1", ":r1">>), T("default", {}, <<>>, <<>>),
-          T("t4", {}, <<>>, <<>>) >>,
+          T("t4", {}, <<>>, <<>>), T("x:own", {}, <<>>, <<>>) >>,   \* a task whose name begins like the namespace x
   B |-> << T("t1", {}, <<>>, <<>>), T("t3", {}, <<"t1">>, <<>>) >>,
   C |-> << T("c1", {}, <<>>, <<":r1">>), T("default", {}, <<>>, <<>>) >>,
   D |-> << T("d1", {}, <<>>, <<>>) >> ]
